@@ -417,6 +417,10 @@ func (m *monC07) checkReg(w *World, ctx sdk.Context, v regView, id uint64, where
 type monC08 struct{ BaseMonitor }
 
 func (m *monC08) Name() string { return "C08" }
+func (m *monC08) Init(w *World) {
+	// under the C08 check proper, exports are also imported and the counters re-checked there
+	w.armedC08 = w.PropOverride == "C08"
+}
 
 var c08Rules = map[string]bool{"wrk.purchase/above-max": true, "bcn.purchase/above-max": true, "wrk.purchase/not-owner": true, "bcn.purchase/not-owner": true, "wrk.purchase/unknown-id": true, "bcn.purchase/unknown-id": true}
 
